@@ -4,7 +4,7 @@ Every entry is part of the claim of the checks that use it; the names are printe
 import re
 import z3
 
-from .core import Agg, SymEnum, Ref, SeqV, Opaque, UNIT, FnItem, NativeFrame
+from .core import zstr, Agg, SymEnum, Ref, SeqV, Opaque, UNIT, FnItem, NativeFrame
 from .mir import MirUnsupported
 
 USED = set()
@@ -86,6 +86,115 @@ def string_push(exe, path, callee, args, dst_ty):
     return [('ret', path, UNIT)]
 
 
+@contract(r'^String::with_capacity$|^CompactString::with_capacity$')
+def string_with_capacity(exe, path, callee, args, dst_ty):
+    return [('ret', path, SeqV(()))]
+
+
+@contract(r'^<(std::ops::)?Range<\w+> as IntoIterator>::into_iter$')
+def range_into_iter(exe, path, callee, args, dst_ty):
+    return [('ret', path, args[0])]
+
+
+@contract(r'^<(std::ops::)?Range<\w+> as Iterator>::next$|^core::iter::range::<impl Iterator for (std::ops::)?Range<\w+>>::next$')
+def range_next(exe, path, callee, args, dst_ty):
+    ref = args[0]
+    r = exe.load(path, ref)
+    if not (isinstance(r, Agg) and len(r.fields) == 2):
+        raise MirUnsupported('Range::next on %r' % (r,))
+    start, end = r.fields[0], r.fields[1]
+    outs = []
+    yes = path.clone()
+    if exe.feasible(yes, [start < end]):
+        yes.pc.append(start < end)
+        exe.store_at(yes, ref.key, ref.proj, r.with_field(0, z3.simplify(start + 1)))
+        outs.append(('ret', yes, some(start)))
+    if exe.feasible(path, [start >= end]):
+        path.pc.append(start >= end)
+        outs.append(('ret', path, NONE))
+    return outs
+
+
+@contract(r'char::methods::<impl char>::from_u32$|^char::from_u32$|core::char::from_u32$')
+def char_from_u32(exe, path, callee, args, dst_ty):
+    v = args[0]
+    valid = z3.And(v >= 0, v <= 0x10FFFF, z3.Or(v < 0xD800, v > 0xDFFF))
+    outs = []
+    yes = path.clone()
+    if exe.feasible(yes, [valid]):
+        yes.pc.append(valid)
+        outs.append(('ret', yes, some(v)))
+    if exe.feasible(path, [z3.Not(valid)]):
+        path.pc.append(z3.Not(valid))
+        outs.append(('ret', path, NONE))
+    return outs
+
+
+@contract(r'^CompactString::new_inline$|^CompactString::const_new$|^CompactString::new::<&str>$')
+def compact_from_const(exe, path, callee, args, dst_ty):
+    t = strval(exe, path, args[0])
+    if isinstance(t, z3.ExprRef) and z3.is_string_value(t):
+        return [('ret', path, SeqV(tuple(z3.IntVal(ord(ch)) for ch in zstr(t))))]
+    if isinstance(t, SeqV):
+        return [('ret', path, t)]
+    raise MirUnsupported('CompactString from %r' % (t,))
+
+
+@contract(r'^String::push_str$|^CompactString::push_str$')
+def string_push_str(exe, path, callee, args, dst_ty):
+    ref, t = args
+    s = exe.load(path, ref)
+    t = strval(exe, path, t)
+    if isinstance(t, z3.ExprRef) and z3.is_string_value(t):
+        t = SeqV(tuple(z3.IntVal(ord(ch)) for ch in zstr(t)))
+    if not isinstance(s, SeqV) or not isinstance(t, SeqV):
+        raise MirUnsupported('push_str of %r onto %r' % (t, s))
+    exe.store_at(path, ref.key, ref.proj, SeqV(s.items + t.items))
+    return [('ret', path, UNIT)]
+
+
+def utf8_width(c):
+    return z3.If(c < 0x80, 1, z3.If(c < 0x800, 2, z3.If(c < 0x10000, 3, 4)))
+
+
+@contract(r'^core::str::<impl str>::len$|^String::len$')
+def str_len(exe, path, callee, args, dst_ty):
+    s = strval(exe, path, args[0])
+    if isinstance(s, SeqV):
+        return [('ret', path, z3.Sum([utf8_width(c) for c in s.items]) if s.items else z3.IntVal(0))]
+    if isinstance(s, z3.ExprRef) and z3.is_string_value(s):
+        return [('ret', path, z3.IntVal(len(zstr(s).encode('utf-8'))))]
+    raise MirUnsupported('len of %r' % (s,))
+
+
+@contract(r'^core::str::<impl str>::chars$')
+def str_chars(exe, path, callee, args, dst_ty):
+    s = strval(exe, path, args[0])
+    if isinstance(s, z3.ExprRef) and z3.is_string_value(s):
+        s = SeqV(tuple(z3.IntVal(ord(ch)) for ch in zstr(s)))
+    if not isinstance(s, SeqV):
+        raise MirUnsupported('chars of %r' % (s,))
+    return [('ret', path, Agg('CharsIter', None, {0: s.items, 1: 0}))]
+
+
+@contract(r"^<Chars<'_> as IntoIterator>::into_iter$")
+def chars_into_iter(exe, path, callee, args, dst_ty):
+    return [('ret', path, args[0])]
+
+
+@contract(r"^<Chars<'_> as Iterator>::next$")
+def chars_next(exe, path, callee, args, dst_ty):
+    ref = args[0]
+    it = exe.load(path, ref)
+    if not (isinstance(it, Agg) and it.name == 'CharsIter'):
+        raise MirUnsupported('Chars::next on %r' % (it,))
+    items, i = it.fields[0], it.fields[1]
+    if i >= len(items):
+        return [('ret', path, NONE)]
+    exe.store_at(path, ref.key, ref.proj, it.with_field(1, i + 1))
+    return [('ret', path, some(items[i]))]
+
+
 @contract(r'^String::insert$')
 def string_insert(exe, path, callee, args, dst_ty):
     ref, idx, c = args
@@ -127,9 +236,9 @@ def str_eq(exe, path, a, b):
             return z3.BoolVal(False)
         return z3.And([x == y for x, y in zip(a.items, b.items)]) if a.items else z3.BoolVal(True)
     if isinstance(a, SeqV) and z3.is_string_value(b):
-        return seq_eq_const(exe, a, b.as_string())
+        return seq_eq_const(exe, a, zstr(b))
     if isinstance(b, SeqV) and z3.is_string_value(a):
-        return seq_eq_const(exe, b, a.as_string())
+        return seq_eq_const(exe, b, zstr(a))
     if isinstance(a, z3.ExprRef) and isinstance(b, z3.ExprRef) and z3.is_string(a) and z3.is_string(b):
         return a == b
     raise MirUnsupported('str eq of %r and %r' % (a, b))
